@@ -191,6 +191,36 @@ class C02Hook:
             self.ctx.count('call:' + script['tx'] + '.' + c[0])
 
 
+def order_free(line, text):
+    """Canonical form for the comparison: the order of states inside one result list / report part, and the order of the
+    parts of one state report, are not part of any property (order of descriptors in U/N/X and of the parts of a
+    description modification report is kept: children must come before / after their parents)."""
+    if line.startswith('end'):
+        head, _, rest = text.partition(' ')
+        secs = []
+        for sec in rest.split('|'):
+            name, _, items = sec.partition(' ')
+            if name in ('U', 'N', 'X'):
+                secs.append(sec)
+            else:
+                secs.append(name + ' ' + ';'.join(sorted(items.split(';'))))
+        return head + ' ' + '|'.join(secs)
+    if line.startswith('reports'):
+        reps = []
+        for rep in text.split(' ## '):
+            if rep.startswith('DESCR') or ' :: ' not in rep:
+                reps.append(rep)
+                continue
+            head, _, parts = rep.partition(' :: ')
+            ps = []
+            for part in parts.split(' && '):
+                mds, _, items = part.partition('=[')
+                ps.append(mds + '=[' + ';'.join(sorted(items.rstrip(']').split(';'))) + ']')
+            reps.append(head + ' :: ' + ' && '.join(sorted(ps)))
+        return ' ## '.join(sorted(reps))
+    return text
+
+
 def compare_model(ctx, w, history, drv):
     if not ctx.driver_ok:
         return
@@ -199,7 +229,7 @@ def compare_model(ctx, w, history, drv):
     for i, (line, exp, got) in enumerate(zip(w.model_lines, w.expected, out)):
         if line.startswith('begin'):
             k += 1
-        if exp is not None and exp != got:
+        if exp is not None and order_free(line, exp) != order_free(line, got):
             what = 'transaction outcome + TransactionResult' if line.startswith('end') else (
                 'table dump after transaction' if line == 'dump' else 'driver op')
             j = i
